@@ -10,6 +10,10 @@
      statement shapes: `CREATE TABLE t(a)`, `INSERT INTO t VALUES(?)`, `SELECT a, typeof(a) FROM t`
      (+ `SELECT ?1, typeof(?1)` for the one-step query with parameters). SQL text and query evaluation are NOT
      modelled: SQLite is trusted to append a row on INSERT and to deliver the rows in insertion order.
+     A second table shape `CREATE TABLE t(a NOT NULL)` (`Op.createNN`, `World.notNull`) gives a statement that fails at
+     STEP time (constraint violation) when the value stored is NULL: `exec(sql, args)` and `execute()` then return 0
+     (BLOC error carrying SQLite's message), store nothing and `execute()` leaves `_stmt_status` untouched; a later
+     `bind()` (unconditional `sqlite3_reset`) + `execute()` on the SAME prepared statement stores the newly bound value.
      `Handle::close()` finalizes `_stmt` and forgets it (`_stmt = nullptr; _stmt_status = STMT_NEW`): nothing dangles.
      `Handle::bind` passes SQLITE_TRANSIENT for TEXT / BLOB: SQLite copies the bytes at bind time, so whether the
      argument tuple is a temporary or a variable (`Op.bind _ temp`) makes no difference.
@@ -130,6 +134,8 @@ structure Handle where
 /-- the database file: table `t(a)` (absent until created) -/
 structure World where
   table : Option (List SVal) := none
+  /-- the table was created as `t(a NOT NULL)`: storing NULL fails at STEP time (SQLITE_CONSTRAINT_NOTNULL) -/
+  notNull : Bool := false
   h : Handle := {}
   emptyBuf : Bool := false
   deriving Repr, DecidableEq
@@ -160,6 +166,7 @@ inductive Res
 inductive Op
   | ctor0 | open | close | isOpen | errmsg
   | create                               -- exec("CREATE TABLE t(a)")
+  | createNN                             -- exec("CREATE TABLE t(a NOT NULL)")
   | execNull                             -- exec(null)
   | insert (args : Option (List BVal))   -- exec("INSERT INTO t VALUES(?)", args)
   | queryAll                             -- query("SELECT a, typeof(a) FROM t")
@@ -212,6 +219,10 @@ def step (w : World) : Op → World × Res
       match w.table with
       | some _ => (w, .sqlErr)
       | none => ({ w with table := some [] }, .bool true)
+    | .createNN =>
+      match w.table with
+      | some _ => (w, .sqlErr)
+      | none => ({ w with table := some [], notNull := true }, .bool true)
     | .execNull => (w, .err)
     | .insert none => (w, .err)
     | .insert (some args) =>
@@ -219,6 +230,8 @@ def step (w : World) : Op → World × Res
       | none => (w, .sqlErr)
       | some rows =>
         if w.h.cursorActive then (w, .unmodelled)
+        -- `sqlite3_step` fails (NOT NULL constraint): `exec` returns 0, nothing is stored
+        else if w.notNull ∧ bindArgs w.emptyBuf .null args = .null then (w, .sqlErr)
         else ({ w with table := some (rows ++ [bindArgs w.emptyBuf .null args]) }, .bool true)
     | .queryAll =>
       match w.table with
@@ -252,6 +265,10 @@ def step (w : World) : Op → World × Res
         match s.kind, w.table with
         | _, none => (w, .unmodelled)          -- cannot happen: prepare needs the table, nothing drops it
         | .insert, some rows =>
+          -- `sqlite3_step` fails at step time (NOT NULL constraint): `execute()` returns 0 through its `default:` branch and
+          -- leaves `_stmt_status` as it was; the halted statement keeps its bindings; the next `bind()` resets it
+          -- (`sqlite3_reset` unconditionally), the next `execute()` steps it again (SQLite rewinds a halted statement itself)
+          if w.notNull ∧ s.binding = .null then (w, .sqlErr) else
           ({ w with table := some (rows ++ [s.binding]), h := { w.h with status := .done } }, .bool true)
         | .select, some rows =>
           ({ w with h := { w.h with stmt := some { s with cursor := rows },
